@@ -35,6 +35,7 @@ type nodeMon struct {
 	sawTwoProposals       bool
 	sawDup                bool
 	commitQBeforePrepared bool
+	preparedIn map[hv]string // (height, view) -> hash: views in which the node sent its COMMIT while its own storage held a prepared certificate
 }
 
 type Pre struct {
@@ -64,7 +65,7 @@ func newMonitors(w *World) *Monitors {
 	for i, n := range w.Nodes {
 		if n != nil {
 			m.per[i] = &nodeMon{proposals: map[hv]string{}, prepares: map[hv]string{}, commits: map[hv]string{}, lastVC: map[uint64]int64{},
-				gotPP: map[hvx]bool{}, gotP: map[hvx]map[string]bool{}, gotC: map[hvx]map[string]bool{}, proofFor: map[uint64][]byte{}, blockFor: map[uint64]*fakes.Block{}}
+				gotPP: map[hvx]bool{}, gotP: map[hvx]map[string]bool{}, gotC: map[hvx]map[string]bool{}, proofFor: map[uint64][]byte{}, blockFor: map[uint64]*fakes.Block{}, preparedIn: map[hv]string{}}
 		}
 	}
 	return m
@@ -463,6 +464,14 @@ func (m *Monitors) onSend(n *Node, sm *SentMsg) {
 		if cq && !cert {
 			nm.commitQBeforePrepared = true
 			m.Facts["commit-quorum-before-prepared"]++
+		}
+		// was this COMMIT sent because the node became prepared? judged on what the node itself has stored at this moment
+		if pp, ok := n.Sto.GetPreprepareMessage(primitives.BlockHeight(meta.H), primitives.View(meta.V)); ok && string(pp.Content().SignedHeader().BlockHash()) == meta.Hash && pp.Block() != nil {
+			ids := n.Sto.GetPrepareSendersIds(primitives.BlockHeight(meta.H), primitives.View(meta.V), primitives.BlockHash(meta.Hash))
+			ids = append(ids, pp.SenderMemberId())
+			if ref.IsQuorum(ids, com) {
+				nm.preparedIn[key] = meta.Hash
+			}
 		}
 		addTo(nm.gotC, kx, string(n.ID))
 	case UVC:
